@@ -333,6 +333,12 @@ def gen_c04(seed, tier='quick', opts=None):
     plan = {'v': 1, 'engine': 'simd', 'property': opts.get('property', 'C04'), 'seed': seed,
             'cfg': cfg, 'users': users, 'tasks': tasks,
             'life': life_table(g, tasks, opts=opts), 'epochs': epochs}
+    if plan['property'] == 'C04':
+        # job control: some executors are stopped and continued; that is no exit and must not
+        # retire a task or count as a run (own generator: older seeds keep their plans)
+        jc = G(seed ^ 0x6a63746c).pick([0, 0, 0, 0.2])
+        if jc:
+            plan['cfg']['jobctl'] = jc
     return plan
 
 
